@@ -495,10 +495,16 @@ class ServerWorld(Base):
                     raise tlc.MachineryError('world %s/%s cannot settle: %s' % (self.pname, self.fam, why))
                 time.sleep(pause)
                 pause = min(pause * 1.5, 0.01)
+        for c in self.order:
+            # quiescent and nothing in flight: a peer that reads has consumed whatever the write
+            # events handled so far will ever deliver (the rest was dropped with the socket)
+            if self.peer(c) is not None and self.reading[c]:
+                self.written[c] = self.recvd[c]
         for c in sorted(self.ssock):
             if c in self.disc or not is_open(self.ssock[c]):       # tables are reported for dead sockets only
                 for name in self.holds(self.ssock[c]):
-                    self.lines.append(line('residue', self.pname, c, 0, 0, name))
+                    held = max(self.buffered(self.ssock[c]), 0) if name == '_buffers' else 0     # a = bytes still buffered
+                    self.lines.append(line('residue', self.pname, c, held, 0, name))
         self.lines.append(line('quiet', self.pname))
 
     # -- teardown ---------------------------------------------------------------
